@@ -74,6 +74,8 @@ def native_replay(obl, cases, tmpdir, tag):
   env = dict(os.environ)
   env.update(obl.get('env', {}))
   env['VERIF_REPLAY_BACKEND'] = 'upb'
+  if tag in ('cex', 'known', 'replay'):
+    env['VERIF_IGNORE_KNOWN'] = '1'   # replay inside the region of a known finding must really execute it
   env['PYTHONHASHSEED'] = '0'
   try:
     p = subprocess.run([PY, os.path.join(VERIF, 'engine', 'replay.py'), obl['harness'], obl['fn'], cpath, opath],
@@ -101,7 +103,10 @@ def match_known(known, pid, obl, cex_args):
   for k in known:
     if k.get('property') != pid or k.get('status', 'open') != 'open':
       continue
-    if k.get('obligation') and k['obligation'] != obl['oid']:
+    if 'applies_to_prefix' in k:
+      if not obl['oid'].startswith(k['applies_to_prefix']):
+        continue
+    elif obl['oid'] not in k.get('applies_to', [k.get('obligation')]):
       continue
     # A known finding is identified by its obligation AND the class of failing input (`match` = python expr on args)
     expr = k.get('match')
